@@ -9,6 +9,7 @@ This file contains the main Program class for the CoCo Assembler.
 from copy import copy
 
 from cocoasm.exceptions import TranslationError, ValueTypeError, OperandTypeError
+from cocoasm.operands import fit_value
 from cocoasm.statement import Statement
 from cocoasm.values import AddressValue, NoneValue
 from cocoasm.virtualfiles.source_file import SourceFile
@@ -132,7 +133,7 @@ class Program(object):
         if statement.label and statement.instruction.is_pseudo_define:
             value = self.symbol_table[statement.label]
             if value.is_address_expression():
-                self.symbol_table[statement.label] = value.calculate_address_offset(self.statements)
+                self.symbol_table[statement.label] = fit_value(value.calculate_address_offset(self.statements), 4)
 
     def translate_statements(self):
         """
